@@ -10,6 +10,8 @@ pub mod std_gaps {
     pub broadcast axiom fn axiom_ordering_eq(a: core::cmp::Ordering, b: core::cmp::Ordering)
         ensures #[trigger] PartialEqSpec::eq_spec(&a, &b) == (a == b);
 
+    /// byte length of a String (value left unspecified)
+    pub assume_specification[ String::len ](s: &String) -> usize;
     /// a Vec never holds more than usize::MAX elements (what Vec::len's usize result implies)
     pub broadcast axiom fn axiom_vec_len_fits<T>(v: &Vec<T>)
         ensures #[trigger] v@.len() <= usize::MAX;
